@@ -4,17 +4,18 @@ EXTENDS HclLexPos
 
 CONSTANTS MaxN, Alphabet, StartKind   \* StartKind: "initial" | "offset"
 
-VARIABLES s, bounds
+VARIABLES s, bounds, cst
 
-vars == <<s, bounds>>
+vars == <<s, bounds, cst>>
 
 P0 == IF StartKind = "initial" THEN Pos(0, 1, 1) ELSE Pos(100, 7, 5)
 
-Init == s = <<>> /\ bounds = <<P0>>
+Init == s = <<>> /\ bounds = <<P0>> /\ cst = "ctrl"
 Next == /\ Len(s) < MaxN
         /\ \E c \in Alphabet :
               /\ s' = Append(s, c)
-              /\ bounds' = Append(bounds, Advance(bounds[Len(bounds)], IF s = <<>> THEN "" ELSE s[Len(s)], c))
+              /\ LET r == AdvanceSt(bounds[Len(bounds)], cst, IF s = <<>> THEN "" ELSE s[Len(s)], c)
+                 IN bounds' = Append(bounds, r.pos) /\ cst' = r.st
 Spec == Init /\ [][Next]_vars
 
 \* the incrementally maintained positions are the specification's Boundaries
@@ -22,5 +23,5 @@ BoundsOK == bounds = Boundaries(s, 1, P0, "")
 \* positions are monotone in byte offset and line
 Monotone == \A i \in 1..(Len(bounds) - 1) : bounds[i].byte < bounds[i+1].byte /\ bounds[i].line <= bounds[i+1].line
 
-Core == {"a", "1", "SP", "TAB", "NL", "CR", "DQ", "BS", "DOLLAR", "LBRACE", "RBRACE", "HASH", "SLASH", "STAR", "LT", "MINUS", "MB", "COMB", "BAD", "ASTRAL"}
+Core == {"a", "1", "SP", "TAB", "NL", "CR", "DQ", "BS", "DOLLAR", "LBRACE", "RBRACE", "HASH", "SLASH", "STAR", "LT", "MINUS", "MB", "COMB", "BAD", "ASTRAL", "EXT3", "ZWJ", "VS"}
 =============================================================================
